@@ -8,6 +8,8 @@ for d in sorted(glob.glob('/verif/seeded/*')):
     m = json.load(open(mp))
     name = os.path.basename(d); pid = name.split('-')[0]; rnd = {'rt': 1, 'r2t': 2, 'r3t': 3}[name.split('-')[1].rstrip('0123456789')]
     lr = m.get('last_run')
+    if str(m.get('current_result', '')).startswith('obsolete') or (isinstance(lr, str) and 'no longer applies' in lr):
+        lr = 'obsolete (the lines it edits were rewritten by a later repair that removes the defect it re-introduced)'
     own = lr.get(pid) if isinstance(lr, dict) else (lr or m.get('current_result') or m.get('first_result'))
     other = [k for k, v in lr.items() if k != pid and str(v).startswith('caught')] if isinstance(lr, dict) else []
     rows.setdefault(pid, []).append((name, rnd, str(m.get('first_result', '?')), str(own), other, (m.get('summary') or '')[:90]))
@@ -18,7 +20,7 @@ for pid, l in rows.items():
     cex = [n for n, *_r in l if 'counterexample' in _r[2]]
     nof = [n for n, *_r in l if 'no-failing' in _r[2]]
     oth = [f"{n} ({','.join(_r[3])})" for n, *_r in l if not _r[2].startswith('caught') and _r[3]]
-    mis = [f"{n}: {_r[2][:40]}" for n, *_r in l if not _r[2].startswith('caught') and not _r[3]]
+    mis = [f"{n}: {_r[2][:60]}" for n, *_r in l if not _r[2].startswith('caught') and not _r[3]]
     fm = [n for n, *_r in l if 'miss' in _r[1].lower()]
     tot.update(cex=len(cex), nof=len(nof), oth=len(oth), mis=len(mis), all=len(l))
     rounds = '+'.join(str(sum(1 for x in l if x[1] == r)) for r in (1, 2, 3) if any(x[1] == r for x in l))
